@@ -48,12 +48,6 @@ structure SelOK (σ : Leaves) (S : Rel) : Prop where
   cols : ∀ c, c ∈ S.columns ↔ c ∈ S.slots.columns S.skipTo.columns
   engine : S.engine = S.skipTo.engine
 
-/-- No trivially-true `Selection` on the unary spine of a skip target (the factories never build one:
-`Selection.apply` returns its target for such a predicate). -/
-def Rel.NoTrivSel : Rel → Prop
-  | .unary op t _ => (∀ p, op = .sel p → p.asTrivial ≠ some true) ∧ Rel.NoTrivSel t
-  | _ => True
-
 /-- What `_append_unary_to_select(op, S)` must return. -/
 structure AppendOK (σ : Leaves) (op : UOp) (S S' : Rel) : Prop where
   ok : SelOK σ S'
